@@ -3,6 +3,7 @@ package verifrepro
 import (
 	"errors"
 	"fmt"
+	"sort"
 	"strings"
 	"testing"
 
@@ -16,7 +17,7 @@ import (
 // computed for the table listed before it. Three tables are used so that the outcome does not depend on the order
 // in which the database enumerates them: whichever empty table follows the full one shows the stale value.
 func TestC43TablesAvgRowLengthNotCarriedOver(t *testing.T) {
-	e, ctx := newEngine(t)
+	e, ctx := c43SortedEngine(t, new(bool), new(bool))
 	for _, q := range []string{
 		"CREATE TABLE a_empty (i BIGINT PRIMARY KEY, s VARCHAR(100))",
 		"CREATE TABLE m_full (i BIGINT PRIMARY KEY, s VARCHAR(100))",
@@ -38,11 +39,16 @@ func TestC43TablesAvgRowLengthNotCarriedOver(t *testing.T) {
 	}
 }
 
+type c43NoPersist struct{}
+
+func (c43NoPersist) Persist(ctx *sql.Context, data []byte) error { return nil }
+
 func c43PrivEngine(t *testing.T) (*sqle.Engine, func(user string) *sql.Context) {
 	db := memory.NewDatabase("mydb")
 	pro := memory.NewDBProvider(db)
 	e := sqle.NewDefault(pro)
 	e.Analyzer.Catalog.MySQLDb.AddRootAccount()
+	e.Analyzer.Catalog.MySQLDb.SetPersister(c43NoPersist{})
 	mk := func(user string) *sql.Context {
 		base := sql.NewBaseSessionWithClientServer("server", sql.Client{User: user, Address: "localhost"}, 1)
 		ctx := sql.NewContext(t.Context(), sql.WithSession(memory.NewSession(base, pro)))
@@ -106,13 +112,28 @@ func (t *c43FailingIndexes) GetIndexes(ctx *sql.Context) ([]sql.Index, error) {
 // c43Db hands out the wrapped parent table.
 type c43Db struct {
 	*memory.Database
-	fail *bool
+	fail  *bool
+	plain *bool
 }
+
+// GetTableNames lists the tables in name order (the memory database lists them in map order), so that the
+// demonstrations do not depend on chance.
+func (d *c43Db) GetTableNames(ctx *sql.Context) ([]string, error) {
+	names, err := d.Database.GetTableNames(ctx)
+	sort.Strings(names)
+	return names, err
+}
+
+// c43PlainTable is a table of an integrator that implements sql.Table only: no statistics, no auto increment.
+type c43PlainTable struct{ sql.Table }
 
 func (d *c43Db) GetTableInsensitive(ctx *sql.Context, name string) (sql.Table, bool, error) {
 	tbl, ok, err := d.Database.GetTableInsensitive(ctx, name)
 	if err != nil || !ok {
 		return tbl, ok, err
+	}
+	if d.plain != nil && *d.plain && strings.HasSuffix(strings.ToLower(name), "_plain") {
+		return c43PlainTable{tbl}, true, nil
 	}
 	if mt, isMem := tbl.(*memory.Table); isMem && strings.EqualFold(name, "parent") {
 		return &c43FailingIndexes{Table: mt, fail: d.fail}, true, nil
@@ -120,18 +141,82 @@ func (d *c43Db) GetTableInsensitive(ctx *sql.Context, name string) (sql.Table, b
 	return tbl, ok, err
 }
 
+// c43Provider is the engine's view of a memory provider: it hands out the wrapping database. The session keeps the
+// plain memory provider (memory.Session only commits to its own database types).
+type c43Provider struct {
+	*memory.DbProvider
+	fail  *bool
+	plain *bool
+}
+
+func (p *c43Provider) wrap(db sql.Database) sql.Database {
+	if mdb, ok := db.(*memory.Database); ok {
+		return &c43Db{Database: mdb, fail: p.fail, plain: p.plain}
+	}
+	return db
+}
+
+func (p *c43Provider) Database(ctx *sql.Context, name string) (sql.Database, error) {
+	db, err := p.DbProvider.Database(ctx, name)
+	if err != nil {
+		return nil, err
+	}
+	return p.wrap(db), nil
+}
+
+func (p *c43Provider) AllDatabases(ctx *sql.Context) []sql.Database {
+	var out []sql.Database
+	for _, db := range p.DbProvider.AllDatabases(ctx) {
+		out = append(out, p.wrap(db))
+	}
+	return out
+}
+
+func c43SortedEngine(t *testing.T, fail, plain *bool) (*sqle.Engine, *sql.Context) {
+	mem := memory.NewDBProvider(memory.NewDatabase("mydb"))
+	e := sqle.NewDefault(&c43Provider{DbProvider: mem, fail: fail, plain: plain})
+	sess := memory.NewSession(sql.NewBaseSession(), mem)
+	ctx := sql.NewContext(t.Context(), sql.WithSession(sess))
+	ctx.SetCurrentDatabase("mydb")
+	return e, ctx
+}
+
+// C43-S1 (tableRows, dataLength, autoInc): a table that implements sql.Table only (no StatisticsTable, no
+// AutoIncrementTable) is listed with TABLE_ROWS, DATA_LENGTH and AUTO_INCREMENT of the table listed before it.
+func TestC43TablesPlainTableValuesNotCarriedOver(t *testing.T) {
+	plain := false
+	e, ctx := c43SortedEngine(t, new(bool), &plain)
+	for _, q := range []string{
+		"CREATE TABLE m_full (i BIGINT PRIMARY KEY AUTO_INCREMENT, s VARCHAR(100))",
+		"CREATE TABLE z_plain (i BIGINT PRIMARY KEY, s VARCHAR(100))",
+		"INSERT INTO m_full (s) VALUES ('x'),('y'),('z')",
+	} {
+		mustRun(t, e, ctx, q)
+	}
+	plain = true
+	rows := mustRun(t, e, ctx, "SELECT table_name, table_rows, data_length, auto_increment FROM information_schema.tables WHERE table_schema = 'mydb' ORDER BY table_name")
+	t.Logf("information_schema.tables: %s", show(rows))
+	if len(rows) != 2 || fmt.Sprint(rows[1][0]) != "z_plain" {
+		t.Fatalf("setup: %s", show(rows))
+	}
+	z := rows[1]
+	if fmt.Sprint(z[1]) != "0" {
+		t.Errorf("z_plain (no statistics) is listed with table_rows %v: the count of m_full was carried over", z[1])
+	}
+	if fmt.Sprint(z[2]) != "0" {
+		t.Errorf("z_plain (no statistics) is listed with data_length %v: the length of m_full was carried over", z[2])
+	}
+	if z[3] != nil {
+		t.Errorf("z_plain (no auto increment) is listed with auto_increment %v: the counter of m_full was carried over", z[3])
+	}
+}
+
 // C43-X1 referentialConstraintsRowIter binds the error of GetIndexes on the referenced table to ierr, tests it with
 // an empty body and goes on: when the referenced table cannot list its indexes the statement succeeds and reports
 // UNIQUE_CONSTRAINT_NAME = NULL instead of failing (every sibling reader returns the error).
 func TestC43ReferentialConstraintsPropagatesIndexErrors(t *testing.T) {
 	fail := false
-	base := memory.NewDatabase("mydb")
-	db := &c43Db{Database: base, fail: &fail}
-	pro := memory.NewDBProvider(db)
-	e := sqle.NewDefault(pro)
-	sess := memory.NewSession(sql.NewBaseSession(), pro)
-	ctx := sql.NewContext(t.Context(), sql.WithSession(sess))
-	ctx.SetCurrentDatabase("mydb")
+	e, ctx := c43SortedEngine(t, &fail, new(bool))
 	for _, q := range []string{
 		"CREATE TABLE parent (id BIGINT PRIMARY KEY)",
 		"CREATE TABLE child (id BIGINT PRIMARY KEY, pid BIGINT, CONSTRAINT fk1 FOREIGN KEY (pid) REFERENCES parent(id))",
